@@ -296,16 +296,23 @@ class Request(Message):
             done = data[:2] == b"\r\n"
 
             if idx < 0 and not done:
+                # no terminator yet: a block (terminator included) that fits
+                # the buffer limit is strictly longer than what we hold
+                if len(data) >= self.max_buffer_headers:
+                    raise LimitRequestHeaders("max buffer headers")
                 self.get_data(unreader, buf)
                 data = buf.getvalue()
-                if len(data) > self.max_buffer_headers:
-                    raise LimitRequestHeaders("max buffer headers")
             else:
                 break
 
         if done:
             self.unreader.unread(data[2:])
             return b""
+
+        # same limit whether the block arrived in one read or in many, and
+        # whatever follows it in the same read
+        if idx + 4 > self.max_buffer_headers:
+            raise LimitRequestHeaders("max buffer headers")
 
         self.headers = self.parse_headers(data[:idx], from_trailer=False)
 
